@@ -152,17 +152,34 @@ template <class F> struct Alt<F, true> {
 };
 static const AnySet* altTable() { return Alt<Flags, HasTypeMember<Cb<It<0>, It<1>>>::value>::table(); }
 
-template <class Set> static std::vector<long> selectionOf(const PIS& is, bool& agree) {
+// round four: second use of the objects -- `setIndexSet` on a built Selection (frees and rebuilds) for the other index set,
+// `free()` + `setIndexSet` back to the first one (third use; must reproduce the first result), a default-constructed
+// UncachedSelection that gets its index set by `setIndexSet`; `second` = the selection of `is2`
+template <class Set> static std::vector<long> selectionOf(const PIS& is, const PIS& is2, bool& agree, std::vector<long>& second) {
   Dune::Selection<Set, int, LocalIndex, 7> sel(is);
   Dune::UncachedSelection<Set, int, LocalIndex, 7> usel(is);
   std::vector<long> a(sel.begin(), sel.end()), b;
   for (auto it = usel.begin(); it != usel.end(); ++it) b.push_back(*it);
   agree = a == b;
+  sel.setIndexSet(is2);
+  second.assign(sel.begin(), sel.end());
+  Dune::UncachedSelection<Set, int, LocalIndex, 7> usel2;
+  usel2.setIndexSet(is2);
+  std::vector<long> b2;
+  for (auto it = usel2.begin(); it != usel2.end(); ++it) b2.push_back(*it);
+  agree = agree && second == b2;
+  sel.free();
+  sel.setIndexSet(is);
+  agree = agree && a == std::vector<long>(sel.begin(), sel.end());
+  usel2.setIndexSet(is);
+  std::vector<long> b3;
+  for (auto it = usel2.begin(); it != usel2.end(); ++it) b3.push_back(*it);
+  agree = agree && a == b3;
   return a;
 }
-static std::vector<long> selection(int mask, const PIS& is, bool& agree) {
+static std::vector<long> selection(int mask, const PIS& is, const PIS& is2, bool& agree, std::vector<long>& second) {
   switch (mask) {
-#define CASE(i) case i: return selectionOf<M##i>(is, agree);
+#define CASE(i) case i: return selectionOf<M##i>(is, is2, agree, second);
     CASE(0) CASE(1) CASE(2) CASE(3) CASE(4) CASE(5) CASE(6) CASE(7) CASE(8) CASE(9) CASE(10) CASE(11) CASE(12) CASE(13)
     CASE(14) CASE(15)
 #undef CASE
@@ -515,11 +532,15 @@ template <class Data> static Result runCase(const Case& c0) {
   // ---- observation 2: Selection / UncachedSelection of the source set with the source attribute set
   {
     bool agree = true;
-    std::vector<long> sel = selection(c.S, srcSet, agree), exp;
+    std::vector<long> sel2, exp2;
+    std::vector<long> sel = selection(c.S, srcSet, tgtSet, agree, sel2), exp;
     for (auto& e : c.set[rank][0]) if (inMask(c.S, e.a)) exp.push_back(e.l);
-    failIf(!agree, "Selection and UncachedSelection differ");
+    for (auto& e : c.tgt(rank)) if (inMask(c.S, e.a)) exp2.push_back(e.l);
+    failIf(!agree, "Selection and UncachedSelection differ (first use, setIndexSet on a built object, or after free)");
     failIf(sel != exp, "Selection " + showL(sel) + " expected " + showL(exp));
-    obs.push_back("S " + showL(sel));
+    failIf(sel2 != exp2, "Selection after setIndexSet(target index set) " + showL(sel2) + " expected " + showL(exp2));
+    stat(sel2 != sel ? "selection_second_use_differs_from_first" : "selection_second_use_same");
+    obs.push_back("S " + showL(sel) + " " + showL(sel2));
   }
 
   // ---- containers: real ones of this rank, shadows of all ranks
